@@ -166,6 +166,18 @@ def long_strings():
         yield ('word' + u) * 7
         yield 'x' * 11 + u + 'y' * 11
     yield 'a' * 100
+    # whitespace-only, control characters, astral / surrogate characters, high bytes next to quotes
+    yield ' ' * 100
+    yield '\t' * 60
+    yield ' \n' * 40
+    yield 'line one\r\nline two\r\n' * 5
+    yield 'word\x7fword\x0cword\x1b[0m ' * 6
+    yield 'emoji \U0001f600 and \U00010000 astral ' * 5
+    yield 'lone \ud800 surrogate \udfff here ' * 5
+    yield "caf\xe9's \xff\"quoted\xfe\" " * 6
+    yield 'x' * 9 + ' ' + 'y' * 10 + ' ' + 'z' * 11 + ' ' + 'w' * 68
+    yield ('ab' * 5 + ' ') * 12
+    yield "\\' \\\" " * 15
     yield 'lorem ipsum dolor sit amet ' * 4
     yield "it's " * 12
     yield 'say "hi" ' * 9
@@ -219,7 +231,7 @@ def run_shard(sh):
             idx += 1
             if not sh.mine(idx):
                 continue
-            s = text.encode('latin-1') if as_bytes else text
+            s = text.encode('latin-1', 'replace') if as_bytes else text
             rng = V.rng_for('c02l', sh.seed, idx)
             widths = (rng.sample(range(1, 25), 6) + [30, 40, 79, len(text) + 1, len(text) + 3]) if quick else list(range(1, 41)) + [60, 79, 120, len(text) + 1, len(text) + 2, len(text) + 3]
             for ctx in CONTEXTS:
